@@ -1,5 +1,5 @@
 PROP = {
-    "thm": ["Umya.Thm.C06", "Umya.Thm.C06Codec", "Umya.Thm.C06Comment"],
+    "thm": ["Umya.Thm.C06", "Umya.Thm.C06Codec", "Umya.Thm.C06Comment", "Umya.Thm.C06Names"],
     "harness": "c06",
     "level": "proof",
     "stateful": True,
@@ -35,7 +35,15 @@ PROP = {
                   "workbooks, lexed by the independent XML reader, are tree-equal to writeComments / writeVml of the values set through the public API and joinShapes (readComments ..) (readVml ..) on the "
                   "real trees equals the reloaded getters; `c06 cmtr`: the same reader-side comparison on every corpus file that has comments, where the harness also checks that each joined shape names its "
                   "comment's cell (three Excel-written files list the shapes in another order: mis-paired before fix b524a98a, counter cmtf.mispaired now 0), and on 60 generated workbooks whose saved VML parts had their "
-                  "v:shape elements reversed / rotated / shuffled (`c06 reset cmtp`). The <autoFilter> element (the struct holds the range only) has its codec theorem C06_auto_filter_codec.",
+                  "v:shape elements reversed / rotated / shuffled (`c06 reset cmtp`). The <autoFilter> element (the struct holds the range only) has its codec theorem C06_auto_filter_codec. "
+                  "Where defined names live (Umya/Model/AnnotNames.lean, Thm/C06Names.lean): a book = workbook-level list + per-sheet lists of (name, localSheetId, address text, sheet of the first area); the writer's <definedNames> order, "
+                  "the reader's re-homing loop (localSheetId, else the first sheet called like the first area's sheet, else workbook level; panic on an id that indexes no sheet) and Spreadsheet::remove_sheet after fix 39e32f7 "
+                  "(ids of later sheets move down, names scoped to the removed position go) are modelled. Proved for all books: the reader is the order-preserving filter of the written list by destination, nothing lost / duplicated / changed "
+                  "(C06_defined_names_read_is_rehome), and panics exactly at the first out-of-range id (C06_defined_names_read_out_of_range); a book in which every name is stored where it is scoped (Stable) reloads as THE SAME book - same lists, same order, "
+                  "same (name, localSheetId, address) (C06_defined_names_rehome_roundtrip); Stable survives remove_sheet(i) for every i, which keeps every other sheet's names in order (C06_defined_names_remove_sheet_stable / _keeps), so the round trip holds after one "
+                  "or any number of removals (C06_defined_names_after_remove_sheet / _after_removals); remove_sheet before the fix is refuted (wrong sheet: _unfixed_fails; reload panic: _unfixed_panics). What is NOT preserved is stated as theorems: an unscoped name stored "
+                  "away from the sheet of its first area, a workbook-level name whose first area names a sheet and a name stored on one sheet with another sheet's id move on reload (C06_defined_names_unstable_moves); a sheet put in front through "
+                  "get_sheet_collection_mut() is not followed by the ids (C06_defined_names_insert_front_fails). Tie on every run (`c06 nm`): the real <definedName> elements in order and the reloaded homes of 6 witnesses + 300 generated books after histories of remove_sheet / appended / inserted sheets equal the model's.",
     "level_note": "Trusted: Lean kernel + 3 standard axioms; the hand model's faithfulness as exercised by the correspondence stream; quick-xml 0.37.5 escape / unescape / "
                   "trim_text / event splitting (modelled); fancy_regex on the is_address regex (hand matcher, tied behaviourally through the dnr lines); the harness dump "
                   "functions (annot_entries) and the zip crate. The *_unfixed_*_fails refutations concern a model of the code BEFORE the fixes, which no longer runs; it was "
@@ -56,7 +64,13 @@ PROP = {
                         # comments: text, VML shapes, join by the cell a note shape names; auto-filter element (Umya/Thm/C06Comment.lean)
                         "C06_comment_text_channel", "C06_comment_text_codec", "C06_comment_vml_order", "C06_comment_roundtrip", "C06_comment_norm",
                         "C06_comment_no_swap", "C06_comment_no_column_target", "C06_comment_join_by_cell", "C06_comment_join_is_zip", "C06_comment_join_valid",
-                        "C06_auto_filter_codec"],
+                        "C06_auto_filter_codec",
+                        # where defined names live: writer list, reader re-homing, remove_sheet (Umya/Thm/C06Names.lean)
+                        "C06_defined_names_read_is_rehome", "C06_defined_names_read_out_of_range", "C06_defined_names_rehome_roundtrip",
+                        "C06_defined_names_unstable_moves", "C06_defined_names_remove_sheet_stable", "C06_defined_names_remove_sheet_keeps",
+                        "C06_defined_names_after_remove_sheet", "C06_defined_names_after_removals",
+                        "C06_defined_names_after_remove_sheet_unfixed_fails", "C06_defined_names_after_remove_sheet_unfixed_panics",
+                        "C06_defined_names_insert_front_fails"],
     "rule": "case = one workbook: 8 fixed witnesses (the repaired defects + the residual ones), N workbooks generated from a per-case seed by wb::gen_book with rich "
             "annotations (1-6 sheets, 0..40 hyperlinks with tooltips / location links to quoted sheets, 0..30 comments over a pool of authors incl. the empty one, 0..36 merges, "
             "0..14 data validations, 0..12 conditional formats x 1-3 rules, auto filter, tab colour argb/theme/indexed, panes + selections, page setup / margins / print options, "
@@ -73,7 +87,11 @@ PROP = {
             "(columns to XFD, rows to 1048576) in random or reverse-sorted insertion order, authors from a pool of 8 incl. the empty one, text plain (specials, blanks / line breaks / U+3000 / NBSP at the ends, empty) "
             "or rich (0-4 runs, fonts on two thirds), anchors default or explicit incl. 0 and u32::MAX, visibility hidden by style / visible with an empty x:Visible / x:Visible True or False, valued "
             "MoveWithCells / SizeWithCells; one `c06 cmt` tie line per sheet with comments; N4 generated workbooks (`c06 reset cmtp <seed>`, quick N4=60, thorough 600) saved, the v:shape elements of every VML part reversed / rotated / shuffled, re-zipped and reloaded: oracle = every comment still "
-            "has its own shape, one `c06 cmtr` line per sheet on the permuted part; every corpus file with a comments part (`c06 reset cmtf <file>`), one `c06 cmtr` line per sheet with comments",
+            "has its own shape, one `c06 cmtr` line per sheet on the permuted part; every corpus file with a comments part (`c06 reset cmtf <file>`), one `c06 cmtr` line per sheet with comments. "
+            "Names cases: 6 witnesses (`c06 reset nmw <id>`: remove-first-of-three / remove-first-of-two = the two refutations of the unfixed remove_sheet, remove-middle = the non-vacuity book, insert-front, unstable-moves, wb-id-out-of-range = reload panic predicted by the model) "
+            "and N5 generated books (`c06 reset nm <seed>`, quick N5=300, thorough 3000): 2-6 sheets with exotic titles, 0-4 names per sheet (scoped to own sheet with areas on own / other / no sheet, constants, formulas, print areas, unscoped homed by first area; "
+            "in a fifth of the cases also names stored away from their scope), 0-3 workbook-level names, then 0-3 operations remove_sheet(i) / new sheet appended or inserted at i, sometimes an out-of-range removal; one `c06 nm` tie line per case; oracle = lists before "
+            "saving == lists after reload when the book is Stable at save time (evaluated on the real objects), else no (name, address) lost",
     "trusted_base": TB_COMMON + [
         "C06 codecs: Umya/Spec/XmlLex.lean (the independent XML reader that parses the real elements in the driver); harness/src/c06codec.rs (specs written down while calling the "
         "setters, enum spellings copied from ECMA-376, getter views, the raw-element scanner `elements`); Umya/Driver/C06Codec.lean (spec parser, attribute-order-insensitive tree "
@@ -129,9 +147,13 @@ PROP = {
         "C06_comment_join_by_cell assumes distinct comment cells and note shapes that name exactly the comments' cells; a loaded part with two note shapes naming one cell, or a note shape naming a cell without "
         "a comment next to shapes that do name cells, is joined as the code does (last shape wins / position) without a theorem saying that is what the producer meant",
         "auto filter: the struct holds the range only (C06_auto_filter_codec, C06_merge_roundtrip, `c06 range` lines); filter columns / criteria / sort state of a loaded file are not held by the library and are dropped on re-save (not a round-trip matter for values set through the API; C04 / C03 territory for loaded files)",
-        "re-homing of defined names (localSheetId, or the sheet named in the first area) is observed through the dump (identity = name + scope), not modelled",
+        "re-homing of defined names is modelled and proved (Umya/Thm/C06Names.lean) with the address text OPAQUE: `first` (the sheet of the first area) is taken as a field of the name; that it is a function of the written text which the "
+        "text codec preserves is C06_defined_name_roundtrip, not re-proved here. The exact round trip is for Stable books; for other books only the filter characterisation (names move to the list the reader chooses, none lost) is proved. "
+        "The reader panics on a localSheetId that indexes no sheet (reachable through the API by giving a workbook-level name such an id, or by a foreign file): modelled as panic and proved, not repaired",
+        "sheets inserted in front of scoped names (only possible through get_sheet_collection_mut(); new_sheet / add_sheet append) leave stale localSheetIds: refuted by C06_defined_names_insert_front_fails, tied, harness oracle relaxed to "
+        "`no name lost` for such histories; a theorem that appending a sheet keeps Stable is not stated (it needs: no workbook-level name's first area names the new title)",
+        "remove_sheet_by_name goes through remove_sheet (same fix); Worksheet::set_name re-pointing names and the hidden attribute are outside the names model (hidden: C06_defined_name_attrs)",
         "Worksheet::set_active_cell is not saved at all (known finding)",
-        "workbooks whose localSheetId values no longer match the sheet order (after removing an earlier sheet) are outside the generator",
     ],
     "technique": "Lean models + theorems of the annotation codecs (defined-name text, ranges, hyperlink rId walk, comment authors table, sheet list), raw-artefact correspondence on every written package, 5-saves / second-generation round-trip oracle over a full annotation dump",
     "timeout_quick": 600,
